@@ -270,8 +270,10 @@ pub broadcast axiom fn arr32_ext(a: [u8; 32], b: [u8; 32]) requires #[trigger] a
 impl proto::gossip::GetBlockResponse {
     #[verifier::external_body] pub fn default() -> (r: Self) ensures r.pre_genesis.is_none(), r.block_v2.is_none() { unimplemented!() }
 }
-// Arc<T> (A1)
+// Arc<T> (A1): an Arc is compared by the value it points to
 pub open spec fn arc_val<T>(a: Arc<T>) -> T { *a }
+pub broadcast axiom fn arc_ext<T>(a: Arc<T>, b: Arc<T>) requires #[trigger] arc_val(a) == #[trigger] arc_val(b) ensures a == b;
+pub open spec fn seq_arc_enc(s: Seq<Arc<Signed<NetAddress>>>) -> Seq<proto::Signed> { Seq::new(s.len(), |i: int| arc_val(s[i]).enc()) }
 """
 
 
@@ -375,6 +377,67 @@ def add_net(U):
                            proof_at_start=BU + " broadcast use arr32_ext;"),
                  build=dict(subs=[("self.0.into()", "verif_arr_to_vec(&self.0)   /* R-std */")]))
     mod_close(U, "rpc_ping")
+    # ---- gossip handshake (semver build version through its string form)
+    mod_open(U, "gossip_hs")
+    U.item(N + "gossip/handshake/mod.rs", "struct Handshake",
+           subs=[("node::Signed<node::SessionId>", "node::Signed<SessionId>"), ("validator::GenesisHash", "GenesisHash"), ("Option<semver::Version>", "Option<Version>")])
+    net_impl(N + "gossip/handshake/mod.rs", "Handshake", "gossip", "Handshake",
+             """proto::gossip::Handshake { session_id: Some(self.session_id.enc()), genesis: Some(self.genesis.enc()), is_static: Some(self.is_static),
+            build_version: match self.build_version { Some(v) => Some(ver_str(v)), None => None } }""",
+             read=dict(closures=[dict(prefix="|x|", ty="&String", ret="verif_o: Result<Version, SemverError>",
+                                      spec="ensures forall|v: Version| #[trigger] ver_str(v) == *{p} ==> verif_o == Ok::<Version, SemverError>(v)")],
+                       subs=[("x.parse()", "verif_parse_version(x)   /* R-std */")]),
+             build=dict(closures=[dict(prefix="|x|", ty="&Version", ret="verif_o: String", spec="ensures verif_o == ver_str(*{p})")],
+                        subs=[("x.to_string()", "verif_version_to_string(x)   /* R-std */")]))
+    mod_close(U, "gossip_hs")
+    # ---- push_validator_addrs: a batch of Arc<Signed<NetAddress>>
+    mod_open(U, "rpc_push_validator_addrs")
+    U.item(N + "rpc/push_validator_addrs.rs", "struct Req", subs=VS)
+    net_impl(N + "rpc/push_validator_addrs.rs", "Req", "gossip", "PushValidatorAddrs",
+             "proto::gossip::PushValidatorAddrs { net_addresses: vec_of_seq(seq_arc_enc(self.0@)) }",
+             read=dict(subs=[("vec![]", "Vec::new()   /* R-std */")],
+                       index_loops={0: dict(prefix="for (i, e) in r.net_addresses.iter().enumerate()", len="r.net_addresses.len()", spec_len="r.net_addresses@.len()",
+                                            at="&r.net_addresses[{i}]", pat="e", idx="i",
+                                            inv="""        {i} <= r.net_addresses@.len(), addrs@.len() == {i},
+        forall|x: Req| #[trigger] x.enc() == *r ==> x.0@.len() == r.net_addresses@.len()
+            && forall|k: int| 0 <= k < {i} ==> arc_val(#[trigger] addrs@[k]) == arc_val(x.0@[k]),""",
+                                            body_start="""let ghost verif_a0 = addrs@;
+            proof {
+                assert forall|x: Req| #[trigger] x.enc() == *r implies x.0@.len() == r.net_addresses@.len() && *e == arc_val(x.0@[i as int]).enc() by {
+                    broadcast use vec_of_seq_view;
+                    assert(x.enc().net_addresses == r.net_addresses);
+                    assert(vec_of_seq(seq_arc_enc(x.0@))@ == seq_arc_enc(x.0@));
+                    assert(r.net_addresses@[i as int] == seq_arc_enc(x.0@)[i as int]);
+                }
+            }""")},
+                       post_subs=[("ProtoFmt::read(e).context(())?,\n            ));", """ProtoFmt::read(e).context(())?,
+            ));
+            proof {
+                assert forall|x: Req| #[trigger] x.enc() == *r implies (forall|k: int| 0 <= k < verif_i0 ==> arc_val(#[trigger] addrs@[k]) == arc_val(x.0@[k])) by {
+                    assert forall|k: int| 0 <= k < verif_i0 implies arc_val(#[trigger] addrs@[k]) == arc_val(x.0@[k]) by {
+                        if k < i { assert(addrs@[k] == verif_a0[k]); }
+                    }
+                }
+            }"""),
+                                  ("Ok(Self(addrs))", """proof {
+            assert forall|x: Req| #[trigger] x.enc() == *r implies Self(addrs) == x by {
+                broadcast use vec_of_seq_view, vec_ext, arc_ext;
+                assert(x.enc().net_addresses == r.net_addresses);
+                assert forall|k: int| 0 <= k < addrs@.len() implies addrs@[k] == x.0@[k] by { assert(arc_val(addrs@[k]) == arc_val(x.0@[k])); }
+                assert(addrs@ =~= x.0@);
+            }
+        }
+        Ok(Self(addrs))""")],
+                       proof_at_start=BU + " broadcast use arc_ext;"),
+             build=dict(chains=[dict(recv="self.0", methods=["iter", "map", "collect"],
+                                     closures={1: dict(ty="&Arc<Signed<NetAddress>>", ret="verif_o: proto::Signed", spec="ensures verif_o == arc_val(*{p}).enc()")},
+                                     template="tmpl_iter_map_collect(&self.0, {a1}, Ghost(|a: Arc<Signed<NetAddress>>| arc_val(a).enc()))")],
+                        subs=[("a.as_ref()", "&**a   /* R-std: Arc::as_ref */")],
+                        post_subs=[("proto::gossip::PushValidatorAddrs {", """proof {
+            assert(seq_arc_enc(self.0@) =~= self.0@.map_values(|a: Arc<Signed<NetAddress>>| arc_val(a).enc()));
+        }
+        proto::gossip::PushValidatorAddrs {""")]))
+    mod_close(U, "rpc_push_validator_addrs")
     U.assume("A3: ProtoFmt of node::PublicKey / node::Signature (ed25519) satisfies the round-trip contract; A2: semver parse/to_string round-trip")
 def add_genesis(U):
     """C10: decoding a Genesis never reaches the `unreachable!()` of GenesisRaw::build (Genesis::read re-encodes what it decoded to
